@@ -317,6 +317,24 @@ def run(tier):
     for p in sorted(rparsers):
         rep.check(p in tests["parsers"], "quotes-mirror-parser", p, "the resolver uses str::parse::<%s> but need_quotes does not" % p, site=nf.span)
     rep.floor("std parsers used by the resolver", len(rparsers), 1)
+    # a character the scanner takes away before a token (the arms of skip_to_next_token: blanks, breaks, the comment sign - and whatever
+    # else it is taught to skip) cannot lead a plain scalar: a string that starts with one must be quoted
+    stn = F.fn(SCANNER + "::skip_to_next_token")
+    skipped = set()
+    for bi, b in enumerate(stn.blocks):
+        tt = b["term"]
+        if b["cleanup"] or tt["k"] != "switch":
+            continue
+        es = cfg.expr_str(cfg.expr_operand(stn, tt["discr"], 6))
+        if ("look_ch" in es or "Input::peek(" in es) and "Eq(" not in es and len(tt["vals"]) >= 2:
+            skipped |= {v for v, tg in zip(tt["vals"], tt["targets"]) if tg != tt["otherwise"]}
+        elif "Eq(" in es and ("look_ch" in es or "Input::peek(" in es):
+            import re as _re2
+            skipped |= {int(x) for x in _re2.findall(r"\('char', (\d+)\)", es)}
+    rep.floor("characters skipped between tokens", len(skipped), 4)
+    for c in sorted(skipped):
+        rep.check(nq(tests, chr(c) + "a"), "quotes-cover-skipped-character", "U+%04X" % c, "the scanner skips U+%04X when it looks for the next token, but need_quotes does "
+                  "not quote a string that starts with it: emitted bare at the start of a line, the character is taken for layout and lost" % c, site=nf.span)
     # ... and they are disjuncts of need_quotes on the whole text: a path that answers "no quotes needed" has run every one of them (a
     # length limit, a fast exit or any other conjunct in front of a parser lets texts the loader types as numbers out bare)
     nparse = 0
